@@ -43,6 +43,8 @@ def load(text):
     sys.stderr = io.StringIO()
     try:
         data, ok = Parsers.get_yaml_data(y, LOG, text, literal=True)
+    except Exception as e:      # the loader itself crashed: still "does not load"
+        raise LoadError("%s: %s" % (type(e).__name__, e))
     finally:
         sys.stderr = olderr
     if not ok:
